@@ -159,11 +159,13 @@ def run(ctx: Context) -> None:
         ctx.check('R09.3', ok_rows, "exactly the rows of kept elements are written, in their original order", uc, outer,
                   construct=f"rows: {norm_text(outer.generators[0].iter)} with include_row = {norm_text(inc[0].value) if inc else '?'}")
         e = inner.elt
-        ok_item = (isinstance(e, ast.IfExp) and norm_text(e.body) == f"{col_p}[item]" and norm_text(e.test) == 'item is not numpy.ma.masked'
-                   and norm_text(e.orelse) == fill_p and norm_text(inner.generators[0].iter) == norm_text(outer.generators[0].target)
+        # (conditional expressions are normalised to their positive test)
+        ivar = inner.generators[0].target.id if isinstance(inner.generators[0].target, ast.Name) else '?'
+        ok_item = (isinstance(e, ast.IfExp) and norm_text(e.orelse) == f"{col_p}[{ivar}]" and norm_text(e.test) == f"{ivar} is numpy.ma.masked"
+                   and norm_text(e.body) == fill_p and norm_text(inner.generators[0].iter) == norm_text(outer.generators[0].target)
                    and not inner.generators[0].ifs)
         ctx.check('R09.3', ok_item, "each present entry is replaced by its new index, each missing entry by the fill value, column order kept", uc, inner)
-        arrs = [c for c in calls_in(uc) if callee(ctx, uc, c) == 'numpy.array' and c.args and c.args[0] is comps[0]]
+        arrs = [c for c in calls_in(uc) if callee(ctx, uc, c) == 'numpy.array' and c.args and uflow.resolve(c.args[0]) is comps[0]]
         dt = [n for n in walk_no_nested(uc.node) if isinstance(n, ast.Assign) and norm_text(n.targets[0]) == 'dtype']
         ok = (len(arrs) == 1 and norm_text(kwarg(arrs[0], 'dtype') or ast.Constant(None)) == 'dtype' and bool(dt)
               and norm_text(dt[0].value) == f"{conn_p}.encoding.get('dtype', {conn_p}.dtype)")
